@@ -69,27 +69,43 @@ ASSUMPTIONS = [
     'float bounds follow Python comparison semantics (NaN passes every bound)',
     'transform callables given to get_param_as_list raise only ValueError',
     'to_query_str round trip: string values, lists with >= 2 elements, no (name, value) pair with both empty; comma_delimited_lists paired with auto_parse_qs_csv; keep_blank on, or no empty value',
+    'to_query_str with non-string values (documented: "a str or something that can be converted into a str, or a list of such values"): the mapping that must come back is {name: str(value)}; for True / False any text that the documented '
+    'boolean table of get_param_as_bool reads as that boolean (the code writes true / false, and True / False inside a comma-delimited list); names are str; str(value) must succeed (an int of more than 4300 digits is outside)',
     'the Cython twin falcon/cyutil/uri.pyx cannot be rebuilt offline and is not exercised',
     'Gt.pyInt models int(str) for ALL code points with the Unicode 15.0 decimal-digit table and sys.int_max_str_digits = 4300 of the running CPython 3.12 (both compared with unicodedata / sys on every run)',
     'req._params is a dict, modelled as an association list read with first-match lookup (the parser never repeats a key: Qs.parseQS_keys_nodup); store is a dict',
 ]
 RULE = ('ALL strings of length <= 4 (quick) / <= 5 (thorough) over {& = , + % 4 a g NUL e-acute} (11 111 / 111 111 strings) x the 4 combinations of keep_blank / csv, '
         'each parsed three ways (uri.parse_query_string, falcon.Request via create_environ, falcon.asgi.Request via create_scope with req_options) and compared with the '
-        'Lean parseQS and with the reference parser; plus random longer strings over the alphabet and escape fragments; plus structured query strings '
+        'Lean parseQS and with the reference parser; plus, for each of ; # ? space / : @ and U+FEFF, every string of length <= 3 over {& = a X} containing X (x 4 options); plus EVERY ASCII character and 16 special code points '
+        '(U+FEFF, zero-width / bidi marks, U+2028/9, NEL, NBSP, SHY, non-characters, U+FFFD, both neighbours of the surrogate gap, U+10FFFF) put as a would-be separator into 14 templates (inside names / values, between fields, next to escapes and CSV lists); '
+        'plus ALL 22 x 22 spellings of a hex-digit pair after "%" (both cases, mixed within one escape) as name, value, alone and in continuation / lead position of 2- and 3-byte UTF-8 sequences; plus every special code point raw / escaped in upper, lower, mixed case / raw next to escaped '
+        'at the START, inside and at the end of names and values; plus random longer strings over the alphabet, escape fragments (mixed-case escapes, any of the 484 pair spellings, escaped and raw separators, BOM and other special code points); '
+        'plus names / values made only of "%" and hex digits with 3..20 "%" signs and unbalanced piece lengths (long decode path); plus structured query strings '
         '(1-6 fields, repeated names, typed values for int/float/bool/uuid/date/datetime/json/list, CSV lists with blank elements, randomly percent-encoded). '
         'On every request object (for the length-5 strings: on one of the two request classes, alternating) every typed getter is called for every name present and one absent name with required/default/store/min/max variations '
         '(store: None, empty, or pre-filled with other keys and/or the name itself); the calls of get_param/_as_int/_as_bool/_as_list are also put to the Lean getter model (all of them, one half on the exhaustive strings) comparing result and store contents in order. '
         'Random dictionaries go through to_query_str and back (both list styles, direct and via request objects) and through the Lean toQueryStr; '
+        'so do dictionaries with NON-STRING values - float (0.0, -0.0, both neighbours of the repr switches at 1e16 and 1e-4, 1e20, 1.5e300, max, min subnormal, inf, nan, random bit patterns, powers of ten 1e-30..1e40), int (0, negative, 2**63, 10**30, 4300 digits), bool, None, Decimal, Fraction, complex, UUID, date, datetime (with UTC offset), bytes, '
+        'an object with __str__, and lists of them (one type or mixed) - which must come back as {name: str(value)} (booleans: any text of the documented table) and through the typed getter of their type as the value itself (floats bit for bit, NaN as NaN); '
         'int() is compared with Gt.pyInt on every code point alone and next to digits/signs (quick: all below U+3100, around every digit block, a sample of the rest) and on ALL strings of length <= 4/5 over {0 7 _ + - space \\x1c NBSP Arabic-3 x EM-SPACE}. '
         'non-trivial = the reference mapping is non-empty; distinct = distinct (query string, options, interface)')
 PARTIAL = ('Proved for all inputs: parser model = reference reading (parseQS_eq_ref), decode = reference (all code paths), decode(encode_value) = id; the getters get_param / _as_int / _as_bool / _as_list '
            '(last occurrence, exact bounds, required/default/store, only documented outcomes, boolean table) for all mappings and end to end from the raw query string; the general to_query_str round trip. '
            'NOT proved (tied by the correspondence / judged by the oracle only): the bytes->str step (UTF-8 with replacement, Utf8 model) has no independent specification; '
            'get_param_as_float (float() needs correctly rounded decimal->binary64, not modelled), _as_uuid, _as_datetime, _as_date, _as_json (library parsers); '
-           'to_query_str for non-string values (str(v), True/False) and the str -> UTF-8 encoding step (the round trip is stated on UTF-8 bytes, names distinct after decoding).')
+           'to_query_str for non-string values: the conversion str(v) / true / false in front of the modelled byte-level rendering is not modelled (the Lean toQueryStr gets the converted texts; the oracle judges the typed round trip); '
+           'the str -> UTF-8 encoding step (the round trip is stated on UTF-8 bytes, names distinct after decoding).')
 JOBS = {'quick': 4, 'thorough': 16}
 
 ALPHABET = ['&', '=', ',', '+', '%', '4', 'a', 'g', '\x00', 'é']
+# every spelling of a hex digit: the 22 x 22 pairs after '%' are all swept (both cases, mixed within one escape)
+HEXD = '0123456789ABCDEFabcdef'
+# the reference reading splits on '&' and the first '=' ONLY: these are the characters nobody splits on but somebody might
+SEPARATORS = [';', '#', '?', ' ', '/', ':', '@']
+# code points some codec / text layer treats specially (BOM = ZWNBSP, zero-width and bidi marks, line / paragraph separators, NEL, NBSP,
+# non-characters, both neighbours of the surrogate gap, the last code point)
+SPECIALS = ['\ufeff', '\u200b', '\u200e', '\u2028', '\u2029', '\u2060', '\ufffe', '\uffff', '\xa0', '\x85', '\xad', '\ud7ff', '\ue000', '\ufdd0', '\ufffd', '\U0010ffff']
 TRUE_S = {'true', 'True', 't', 'yes', 'y', '1', 'on'}       # documented in get_param_as_bool
 FALSE_S = {'false', 'False', 'f', 'no', 'n', '0', 'off'}
 _T_ORDER = ['true', 'True', 't', 'yes', 'y', '1', 'on']     # the order in which the source (and the Lean table) lists them
@@ -461,7 +477,7 @@ def run(ctx):
         for kb, csv in combos:
             want = ref_parse(qs, kb, csv)
             line = f'{1 if kb else 0} {1 if csv else 0} {h}'
-            for iface in ('direct', 'wsgi', 'asgi'):
+            for iface in (('direct',) if qs.startswith('?') else ('direct', 'wsgi', 'asgi')):   # (create_environ refuses a leading '?')
                 req = None
                 try:
                     if iface == 'direct':
@@ -496,13 +512,85 @@ def run(ctx):
                 ctx.count(f'exhaustive_len_{n}')
             idx += 1
 
+    # 1b. one extra letter at a time: for each separator-like character and the BOM every string of length <= 3 over {& = a X} that contains X, x 4 options
+    for xch in SEPARATORS + ['\ufeff']:
+        for n in range(1, 4):
+            for tup in itertools.product(['&', '=', 'a', xch], repeat=n):
+                if xch not in tup:
+                    continue
+                if idx % k == i:
+                    one_qs(''.join(tup), 'extra_letter', False)
+                    ctx.count('extra_letter_exhaustive_len_le_3')
+                idx += 1
+    # 1c. EVERY ASCII character and every special code point as a would-be separator inside names, values, between fields, next to escapes and CSV lists
+    TEMPL = ['X', 'aXb', 'a=bXc', 'a=bXc=d', 'aXb=c', 'a=1Xa=2', 'X=a', 'a=X', 'a=b&Xc=d', 'a=1,2X3', 'Xa=bX', 'a=%41X%42', 'a=b&X', 'a=XX&b=X']
+    for xch in [chr(c) for c in range(128)] + SPECIALS:
+        for t in TEMPL:
+            if idx % k == i:
+                one_qs(t.replace('X', xch), 'separator_template', False, combos=[(rnd.random() < 0.5, rnd.random() < 0.5)])
+                ctx.count('separator_template_' + ('ascii' if xch < '\x80' else 'special_code_point'))
+            idx += 1
+    # 1d. every spelling of an escape: all 22 x 22 hex-digit pairs after '%', as a name, as a value, alone, and in continuation / lead position of
+    #     2- and 3-byte UTF-8 sequences (neighbouring escapes in mixed case as well)
+    PAIR_CTX = ['%XY', 'v=%XY', '%XY=1', 'v=%c3%XY', 'v=%XY%a9', 'v=%E2%82%XY', '%XY%82%aC=1,2']
+    for x in HEXD:
+        for y in HEXD:
+            for t in PAIR_CTX:
+                if idx % k == i:
+                    one_qs(t.replace('XY', x + y), 'hex_pair_sweep', False, combos=[(rnd.random() < 0.5, rnd.random() < 0.5)])
+                    ctx.count('hex_pair_' + ('mixed_case_letters' if (x + y).isalpha() and not (x + y).isupper() and not (x + y).islower() else 'uniform'))
+                idx += 1
+    # 1e. special code points at the START of a name / value, inside and at the end: raw, escaped (upper / lower / mixed case), raw next to escaped
+    def pct(b):
+        return '%' + ''.join(rnd.choice([ch.lower(), ch.upper()]) for ch in '%02X' % b)
+
+    def esc_all(t, style):
+        e = ''.join('%%%02X' % b for b in t.encode('utf-8'))
+        return e if style == 'upper' else e.lower() if style == 'lower' else ''.join(pct(b) for b in t.encode('utf-8'))
+    SP_CTX = ['Z', 'v=Z', 'Z=1', 'v=Zabc', 'v=abcZ', 'v=aZb', 'Zk=Zv', 'v=ZZ', 'v=1,Z2', 'v=Z&v=Z%41']
+    for sp in SPECIALS:
+        for z in (sp, esc_all(sp, 'upper'), esc_all(sp, 'lower'), esc_all(sp, 'mixed'), sp + esc_all(sp, 'upper')):
+            for t in SP_CTX:
+                if idx % k == i:
+                    one_qs(t.replace('Z', z), 'special_code_point', False, combos=[(rnd.random() < 0.5, rnd.random() < 0.5)])
+                    ctx.count('special_code_point_' + ('raw' if z == sp else 'escaped'))
+                idx += 1
+
     # 2. random longer strings over the alphabet and escape fragments
     FRAG = ALPHABET + ['%ff', '%fe', '%C3%A9', '%c3', '%A9', '%2C', '%2c', '%26', '%3D', '%2B', '%25', '%00', '%E2%82%AC', '%F0%9F%98%80', '%ED%A0%80',
-                       '=', '&', '&&', ',', ',,', 'a', 'b', '4', 'true', '%4', '%g', '%%']
+                       '=', '&', '&&', ',', ',,', 'a', 'b', '4', 'true', '%4', '%g', '%%',
+                       # escapes in mixed case (between and WITHIN escapes), separators nobody splits on (raw and escaped), special code points
+                       '%c3%A9', '%C3%a9', '%e2%82%aC', '%cE%b1', '%d0%bA', '%Fa', '%bC', '%3B', '%3b', '%23', '%3F',
+                       ';', ';', '#', '?', ' ', '/', ':', '@', '\ufeff', '\u200b', '\u2028', '\uffff', '%EF%BB%BF', '%ef%bb%bf', '%Ef%bB%Bf', '%E2%80%8B', '%EF%BF%BE', '%ED%BF%BF']
     for _ in range(ctx.n(3000, 40000)):
-        s = ''.join(rnd.choice(FRAG) for _ in range(rnd.randint(5, rnd.choice([8, 15, 30, 30, 200]))))
+        s = ''.join(rnd.choice(FRAG) if rnd.random() < 0.93 else '%' + rnd.choice(HEXD) + rnd.choice(HEXD) for _ in range(rnd.randint(5, rnd.choice([8, 15, 30, 30, 200]))))
         one_qs(s, 'random', False, combos=[(rnd.random() < 0.5, rnd.random() < 0.5)])
         ctx.count('random')
+        ctx.count('random_with_raw_semicolon' if ';' in s else 'random_without_raw_semicolon')
+
+    # 2b. names / values made ONLY of '%' and hex digits, 3..20 '%' signs (mostly 7..12: the long decode path), piece lengths unbalanced in every way
+    def pct_hex_only():
+        n = rnd.choice([3, 6, 7, 7, 7, 8, 8, 9, 10, 11, 12, 12, 20])
+        r = rnd.random()
+        lens = [0] + [2] * n
+        if r < 0.45:      # a truncated escape compensated by surplus digits elsewhere: the total stays 3 n
+            for _ in range(rnd.randint(1, 4)):
+                a, b = rnd.randrange(n + 1), rnd.randrange(n + 1)
+                if a != b and lens[a] > 0:
+                    lens[a] -= 1; lens[b] += 1
+        elif r < 0.8:
+            lens = [rnd.choice([0, 0, 1, 2, 3])] + [rnd.choice([0, 1, 2, 2, 2, 3, 4]) for _ in range(n)]
+        else:
+            for _ in range(rnd.randint(1, 3)):
+                a = rnd.randrange(n + 1)
+                lens[a] = max(0, lens[a] + rnd.choice([-2, -1, 1, 2]))
+        digits = rnd.choice([HEXD, HEXD, '0123456789', 'abcdef', 'ABCDEF', '4'])
+        return '%'.join(''.join(rnd.choice(digits) for _ in range(m)) for m in lens)
+
+    for _ in range(ctx.n(800, 12000)):
+        s = rnd.choice(['v=', 'v=', '', 'a=1&v=']) + pct_hex_only() + rnd.choice(['', '', '=1', '&v=2'])
+        one_qs(s, 'pct_and_hex_digits_only', False, combos=[(rnd.random() < 0.5, rnd.random() < 0.5)])
+        ctx.count('pct_and_hex_digits_only')
 
     # 3. structured, mostly valid typed values
     u = [str(uuid.UUID(int=rnd.getrandbits(128))) for _ in range(4)]
@@ -515,10 +603,13 @@ def run(ctx):
         'datetime': ['2024-02-29T12:30:00Z', '2024-02-29T12:30:00%2B0100', '2024-02-29T12:30:00+0100', '2024-02-29T12:30:00-0100', '2024-02-29T24:00:00Z',
                      '2024-02-29T12:30:00', '2024-02-29T12:30:00-2400', '2024-02-29T12:30:00%2B01:00'],
         'json': ['{"a":1}', '[1,2]', 'null', 'true', '"é"', '{"a":[1,{"b":null}]}', '{', ' 1 ', 'NaN', '1e999', '"\\ud800"', '[1%2C2]', '{"a"%3A"b%26c"}', "{'a':1}", '1 2'],
-        'word': ['a', 'abc', 'x y', 'café', '€', '\U0001F600', 'a%', '%zz', '100%25', 'a=b', '\x00'],
+        'word': ['a', 'abc', 'x y', 'café', '€', '\U0001F600', 'a%', '%zz', '100%25', 'a=b', '\x00',
+                 'text/html;q=0.9', '/shop;jsessionid=A1B2/cart', 'color:red;margin:0', '25;', ';', 'a#b', 'a?b=c', 'user@host:80', 'München', 'к', 'α',
+                 '\ufeffabc', 'a\ufeffb', '\ufeff', '\u200bx', 'x\u2028', '\ufffe', '\uffff'],
     }
     # (names that are templates of some formatting mini-language must be handled as plain text on every path, the error paths included)
     KEYS = ['a', 'a', 'b', 'id', 'é', 'a b', '', 'q[]', 'A', 'a%20b', '%61', 'a', 'b',
+            'a;b', ';', ';a', '#', 'k@', 'a:b', 'a/b', '\ufeffk', '\ufeff', 'k\u200b', 'ü',
             '{0}', '{}', '{id}', 'filter{name}', '}', '{', '{0!r}', '{a.b}', '{0[0]}', '%s', '%(a)s', '%d', '$a', '${a}', '\\', '\\n', '"', "a'b", '<b>', 'a\nb']
 
     def enc_some(s):
@@ -526,7 +617,8 @@ def run(ctx):
         for c in s:
             r = rnd.random()
             if r < 0.15:
-                out.append(''.join(('%%%02X' if rnd.random() < 0.5 else '%%%02x') % b for b in c.encode('utf-8')))
+                # each escape in upper case, lower case, or with the case chosen per hex digit (mixed within one escape)
+                out.append(''.join((('%%%02X' if rnd.random() < 0.5 else '%%%02x') % b) if rnd.random() < 0.5 else pct(b) for b in c.encode('utf-8')))
             elif c == ' ' and r < 0.6:
                 out.append('+')
             else:
@@ -622,6 +714,154 @@ def run(ctx):
         sessg.case({'kind': 'to_query_str', 'mapping': m, 'comma_delimited_lists': cdl, 'prefix': pfx})
         sessg.op(f'toqs {1 if cdl else 0} {1 if pfx else 0} {show_mapping(m)}', exp)
         ctx.count('to_query_str_only')
+
+    # ------------------------------------------------------------- to_query_str with NON-STRING values ("a str or something that can be converted into a str, or a list of such values")
+    import struct
+    from decimal import Decimal
+    from fractions import Fraction
+    TYPED_ORACLE = ('to_query_str(mapping with non-string values) parses back to {name: str(value)} (a boolean: a text the documented boolean table reads as that boolean), '
+                    'and the typed getter of the value\'s type (get_param_as_int / _as_float / _as_bool / _as_uuid / _as_date / _as_list(transform)) returns the value itself')
+
+    class Txt:
+        """Something that can be converted into a str."""
+        def __init__(self, t): self.t = t
+        def __str__(self): return self.t
+        def __repr__(self): return f'Txt({self.t!r})'
+
+    FLOATS = [0.0, -0.0, 1.0, 1.5, 0.1, 0.2, -2.5, 123456.789, 1e15, 9999999999999998.0, math.nextafter(1e16, 0.0), 1e16, math.nextafter(1e16, math.inf), -1e16, 1e17, 1e20, 6.02214076e23,
+              -1e22, 1.5e300, 1.7976931348623157e308, 5e-324, 2.2250738585072014e-308, 1e-7, 1e-5, math.nextafter(1e-4, 0.0), 1e-4, 0.001, 2.5e-10, math.inf, -math.inf, math.nan]
+    INTS = [0, 1, -1, 7, 10, 250, -42, 2 ** 31, 2 ** 63, -2 ** 63 - 1, 10 ** 16, 10 ** 20, -10 ** 22, 10 ** 30, -(10 ** 100), 10 ** 4299, -(10 ** 4299) + 1]
+    TZ = datetime.timezone(datetime.timedelta(hours=1))
+
+    def rfloat():
+        r = rnd.random()
+        if r < 0.4: return rnd.choice(FLOATS)
+        if r < 0.65: return struct.unpack('<d', rnd.getrandbits(64).to_bytes(8, 'little'))[0]          # any sign / exponent / mantissa, NaNs included
+        if r < 0.85: return rnd.choice([1.0, -1.0, 2.5, 9.999]) * 10.0 ** rnd.randint(-30, 40)         # around both switches of repr to exponent notation
+        return rnd.uniform(-1e6, 1e6)
+
+    def rint():
+        r = rnd.random()
+        if r < 0.5: return rnd.choice(INTS)
+        if r < 0.8: return rnd.randint(-1000, 1000)
+        return rnd.choice([1, -1]) * rnd.getrandbits(rnd.choice([16, 40, 64, 200, 1000]))
+
+    def rvalue(kind, lo):
+        if kind == 'float': return rfloat()
+        if kind == 'int': return rint()
+        if kind == 'bool': return rnd.random() < 0.5
+        if kind == 'str': return rstr(max(lo, 1) if rnd.random() < 0.5 else lo)
+        if kind == 'none': return None
+        if kind == 'decimal': return rnd.choice([Decimal('1E+20'), Decimal('0.1'), Decimal('-1.5E-7'), Decimal('12.50'), Decimal('Infinity'), Decimal(rnd.randint(-10 ** 6, 10 ** 6)).scaleb(rnd.randint(-12, 25))])
+        if kind == 'fraction': return Fraction(rnd.randint(-50, 50), rnd.randint(1, 9))
+        if kind == 'complex': return complex(rfloat(), rfloat())
+        if kind == 'uuid': return uuid.UUID(int=rnd.getrandbits(128))
+        if kind == 'date': return datetime.date(rnd.randint(1, 9999), rnd.randint(1, 12), rnd.randint(1, 28))
+        if kind == 'datetime': return datetime.datetime(rnd.randint(1900, 2100), rnd.randint(1, 12), rnd.randint(1, 28), rnd.randint(0, 23), rnd.randint(0, 59), rnd.randint(0, 59), tzinfo=rnd.choice([None, TZ, datetime.timezone.utc]))
+        if kind == 'bytes': return rstr(1).encode('utf-8')
+        return Txt(rstr(max(lo, 1)))
+
+    KINDS = ['float', 'float', 'float', 'int', 'int', 'bool', 'str', 'none', 'decimal', 'fraction', 'complex', 'uuid', 'date', 'datetime', 'bytes', 'object']
+
+    def texts_for(v):
+        """The texts a value may come back as: str(v); for a boolean whatever the documented table reads as that boolean."""
+        if v is True: return TRUE_S
+        if v is False: return FALSE_S
+        return {str(v)}
+
+    def same_typed(a, b):
+        if type(a) is not type(b): return False
+        if isinstance(a, float):
+            return (math.isnan(a) and math.isnan(b)) or (a == b and math.copysign(1.0, a) == math.copysign(1.0, b))
+        if isinstance(a, list):
+            return len(a) == len(b) and all(same_typed(x, y) for x, y in zip(a, b))
+        return a == b
+
+    def typed_getter(req, key, v):
+        """(what was called, result) for the getter that corresponds to the type of v, or None."""
+        vs = v if isinstance(v, list) else [v]
+        t = type(vs[0])
+        if any(type(x) is not t for x in vs):
+            return None
+        if isinstance(v, list):
+            tr = {int: int, float: float, str: None, uuid.UUID: uuid.UUID}.get(t, False)
+            if tr is False:
+                return None
+            return (f'get_param_as_list({key!r}, transform={getattr(tr, "__name__", None)})', req.get_param_as_list(key, transform=tr) if tr else req.get_param_as_list(key))
+        if t is bool: return (f'get_param_as_bool({key!r})', req.get_param_as_bool(key))
+        if t is int: return (f'get_param_as_int({key!r})', req.get_param_as_int(key))
+        if t is float: return (f'get_param_as_float({key!r})', req.get_param_as_float(key))
+        if t is str: return (f'get_param({key!r})', req.get_param(key))
+        if t is uuid.UUID: return (f'get_param_as_uuid({key!r})', req.get_param_as_uuid(key))
+        if t is datetime.date: return (f'get_param_as_date({key!r})', req.get_param_as_date(key))
+        return None
+
+    def code_text(v, in_list, cdl):
+        # what the real function hands to encode_value (the str() step in front of the modelled byte-level rendering): 'true' / 'false' for the
+        # singletons True / False except inside a comma-delimited list (map(str, ...)), str(v) otherwise
+        if (v is True or v is False) and not (in_list and cdl):
+            return 'true' if v else 'false'
+        return str(v)
+
+    for _ in range(ctx.n(5000, 70000)):
+        keep_blank = rnd.random() < 0.7
+        lo = 0 if keep_blank else 1
+        m = {}
+        for _ in range(rnd.randint(1, 4)):
+            key = rstr(1)
+            kind = rnd.choice(KINDS)
+            if rnd.random() < 0.3:
+                # lists: mostly of one type, sometimes mixed
+                v = [rvalue(kind if rnd.random() < 0.8 else rnd.choice(KINDS), lo) for _ in range(rnd.randint(2, 4))]
+            else:
+                v = rvalue(kind, lo)
+            m[key] = v
+            ctx.count('typed_value_' + kind + ('_list' if isinstance(v, list) else ''))
+            for x in (v if isinstance(v, list) else [v]):
+                if isinstance(x, float):
+                    ctx.count('typed_float_' + ('nonfinite' if not math.isfinite(x) else 'exponent_plus' if 'e+' in repr(x) else 'exponent_minus' if 'e-' in repr(x) else 'positional'))
+        cdl = rnd.random() < 0.5
+        csv = cdl or rnd.random() < 0.5
+        entry = rnd.choice(['direct', 'wsgi', 'asgi', 'wsgi', 'asgi'])
+        bad = None
+        qs = back = None
+        try:
+            qs = to_query_str(m, comma_delimited_lists=cdl, prefix=False)
+            if to_query_str(m, comma_delimited_lists=cdl) != '?' + qs:
+                bad = 'prefix=True is not "?" + the prefix=False rendering'
+            req = None
+            if entry == 'direct':
+                back = uri.parse_query_string(qs, keep_blank, csv)
+            else:
+                req = make_req(entry, qs, keep_blank, csv)
+                back = req.params
+            if bad is None and list(back) != list(m):
+                bad = f'rendered {qs[:200]!r}, parsed back ({entry}) with names {list(back)!r}'
+            for key, v in m.items():
+                if bad is not None:
+                    break
+                got = back[key]
+                if isinstance(v, list):
+                    okv = isinstance(got, list) and len(got) == len(v) and all(isinstance(g, str) and g in texts_for(x) for g, x in zip(got, v))
+                else:
+                    okv = isinstance(got, str) and got in texts_for(v)
+                if not okv:
+                    exp = [sorted(texts_for(x))[0] if isinstance(x, bool) else str(x) for x in v] if isinstance(v, list) else str(v)
+                    bad = f'{key!r}: {v!r} rendered in {qs[:200]!r}, parsed back ({entry}) as {str(got)[:200]!r}, expected {str(exp)[:200]!r}'
+                elif req is not None:
+                    tg = typed_getter(req, key, v)
+                    if tg is not None and not same_typed(tg[1], v):
+                        bad = f'{key!r}: {v!r} rendered in {qs[:200]!r}; {tg[0]} returned {tg[1]!r}'
+        except Exception as e:  # noqa
+            bad = f'raised {type(e).__name__}: {str(e)[:200]}'
+        ctx.oracle(TYPED_ORACLE, bad is None, bad, {'mapping': repr(m)[:2000], 'comma_delimited_lists': cdl, 'keep_blank_qs_values': keep_blank, 'auto_parse_qs_csv': csv, 'entry': entry})
+        ctx.seen(('typed', repr(m), cdl, keep_blank, csv, entry), True)
+        ctx.count('typed_roundtrip_' + entry)
+        if qs is not None and back is not None:
+            ms = {key: ([code_text(x, True, cdl) for x in v] if isinstance(v, list) else code_text(v, False, cdl)) for key, v in m.items()}
+            sessg.case({'kind': 'to_query_str typed', 'mapping': repr(m)[:500], 'comma_delimited_lists': cdl})
+            sessg.op(f'toqs {1 if cdl else 0} 0 {show_mapping(ms)}', hx(qs.encode('utf-8')))
+            sessg.op(f'{1 if keep_blank else 0} {1 if csv else 0} {hx(qs.encode("utf-8"))}', render(back))
 
     # ------------------------------------------------------------- the constants and int() of the getter model
     import unicodedata
